@@ -39,6 +39,26 @@ type c16Case struct {
 	// instead of mail.Client; NoHello: Auth is the first method that talks to the server.
 	Direct  bool `json:"direct,omitempty"`
 	NoHello bool `json:"no_hello,omitempty"`
+	// Mid (direct mode): what the application does between two steps of the exchange, as another
+	// goroutine could at that very point: "close" = Client.Close(), "debugon" = debug logging was off
+	// when Auth started and is switched on now.
+	Mid string `json:"mid,omitempty"`
+}
+
+// midAuth wraps an smtp.Auth and runs a hook when the first challenge arrives, i.e. between two
+// commands of the exchange (the point at which another goroutine gets the client's mutex).
+type midAuth struct {
+	smtp.Auth
+	hook func()
+	done bool
+}
+
+func (m *midAuth) Next(fromServer []byte, more bool) ([]byte, error) {
+	if more && !m.done {
+		m.done = true
+		m.hook()
+	}
+	return m.Auth.Next(fromServer, more)
 }
 
 type captureLogger struct {
@@ -148,6 +168,7 @@ func c16Run(c c16Case) []*core.Violation {
 	m.SetBodyString(mail.TypeTextPlain, "body\r\n")
 	var dialErr, sendErr error
 	var r callResult
+	debugWasOn := c.Mid != "debugon"
 	if c.Direct {
 		r = watchdog(20*time.Second, d, func() error {
 			conn, derr := d.DialContext(context.Background(), "tcp", refHost+":25")
@@ -169,7 +190,9 @@ func c16Run(c c16Case) []*core.Violation {
 			default:
 				sc.SetLogger(capture)
 			}
-			sc.SetDebugLog(true)
+			if c.Mid != "debugon" {
+				sc.SetDebugLog(true)
+			} // else: a logger is set but debug logging is still off (its default) when Auth starts
 			if !c.NoHello {
 				if herr := sc.Hello("client.verif.example"); herr != nil {
 					dialErr = herr
@@ -190,6 +213,12 @@ func c16Run(c c16Case) []*core.Violation {
 				a = smtp.ScramSHA1Auth(c.User, c.Pass)
 			default:
 				a = smtp.ScramSHA256Auth(c.User, c.Pass)
+			}
+			switch c.Mid {
+			case "close":
+				a = &midAuth{Auth: a, hook: func() { _ = sc.Close() }}
+			case "debugon":
+				a = &midAuth{Auth: a, hook: func() { sc.SetDebugLog(true); debugWasOn = true }}
 			}
 			if dialErr = sc.Auth(a); dialErr != nil {
 				return nil
@@ -330,7 +359,7 @@ func c16Run(c c16Case) []*core.Violation {
 		}
 	}
 	// the redaction window closes again
-	if c.SendMsg && dialErr == nil {
+	if c.SendMsg && dialErr == nil && debugWasOn {
 		mailSeen := false
 		for _, t := range sess.Txns {
 			if strings.Contains(t.From, marker) {
@@ -343,8 +372,8 @@ func c16Run(c c16Case) []*core.Violation {
 			}
 		}
 	}
-	if nrecs == 0 {
-		vs = append(vs, core.V("HARNESS-nolog", "no log record was captured at all"))
+	if nrecs == 0 && debugWasOn {
+		vs = append(vs, core.V("HARNESS-nolog", "no log record was captured at all: %+v dialErr=%v", c, dialErr))
 	}
 	// evidence
 	abnormal := dialErr != nil
@@ -369,7 +398,7 @@ func c16Run(c c16Case) []*core.Violation {
 		rec.Class("exchange:ok")
 	}
 	if responses >= 2 || abnormal {
-		rec.NonTrivial(core.Join(c.Mech, c.TLS, c.Wrong, strings.Join(keys, ","), c.Extra, c.Logger, c.SendMsg, c.Direct, c.NoHello, core.Hash(c.Pass)))
+		rec.NonTrivial(core.Join(c.Mech, c.TLS, c.Wrong, strings.Join(keys, ","), c.Extra, c.Logger, c.SendMsg, c.Direct, c.NoHello, c.Mid, core.Hash(c.Pass)))
 		rec.Sample(c.Mech+"/"+c.Logger+fmt.Sprint(abnormal), map[string]interface{}{"mech": c.Mech, "tls": c.TLS, "wrong_password": c.Wrong, "faults": keys, "extra_challenge": c.Extra, "logger": c.Logger, "log_records": nrecs, "secret_lines_checked": len(secretLines), "dial_error": fmt.Sprint(dialErr), "send_error": fmt.Sprint(sendErr)})
 	}
 	return vs
@@ -400,6 +429,7 @@ func c16Gen(t *rapid.T) c16Case {
 	if c.TLS == "none" && rapid.IntRange(0, 3).Draw(t, "direct") == 0 {
 		c.Direct = true
 		c.NoHello = rapid.Bool().Draw(t, "nohello")
+		c.Mid = rapid.SampledFrom([]string{"", "", "close", "debugon"}).Draw(t, "mid")
 		c.Mech = strings.TrimSuffix(c.Mech, "-NOENC")
 	}
 	c.Steps = map[string]refsmtp.Outcome{}
@@ -432,7 +462,7 @@ func c16Gen(t *rapid.T) c16Case {
 
 func TestC16(t *testing.T) {
 	rec := core.Rec("C16")
-	rec.Rule = "the real Client with WithDebugLog (auth-data logging not enabled) authenticates against the reference SASL servers with mechanisms {PLAIN, LOGIN (NOENC and over TLS), CRAM-MD5, XOAUTH2, SCRAM-SHA-1/-256 and PLUS over TLS 1.2/1.3}, random alphanumeric passwords/tokens of 12..40 characters, right or wrong password, and server scripts {success, 535 to the AUTH command, 535 / non-base64 challenge / disconnect at exchange step 1..3, unexpected extra challenge, disconnect at AUTH, disconnect right after a challenge or right after the EHLO reply so that the client's write of the secret-bearing line fails}; loggers: a capturing log.Logger, log.New (text) and log.NewJSON; optionally followed by a MAIL/RCPT/DATA transaction; one case in four (of the non-TLS ones) drives the exported smtp.Client API directly (NewClient, SetLogger, SetDebugLog, Auth with or without a prior Hello, Mail, Quit). " +
+	rec.Rule = "the real Client with WithDebugLog (auth-data logging not enabled) authenticates against the reference SASL servers with mechanisms {PLAIN, LOGIN (NOENC and over TLS), CRAM-MD5, XOAUTH2, SCRAM-SHA-1/-256 and PLUS over TLS 1.2/1.3}, random alphanumeric passwords/tokens of 12..40 characters, right or wrong password, and server scripts {success, 535 to the AUTH command, 535 / non-base64 challenge / disconnect at exchange step 1..3, unexpected extra challenge, disconnect at AUTH, disconnect right after a challenge or right after the EHLO reply so that the client's write of the secret-bearing line fails}; loggers: a capturing log.Logger, log.New (text) and log.NewJSON; optionally followed by a MAIL/RCPT/DATA transaction; one case in four (of the non-TLS ones) drives the exported smtp.Client API directly (NewClient, SetLogger, SetDebugLog, Auth with or without a prior Hello, Mail, Quit), optionally with Client.Close() or SetDebugLog(true) happening between two steps of the exchange. " +
 		"Oracle: no log record (each Messages element, the formatted record, the stock loggers' bytes, every JSON string value) contains the password/token raw, in hex, or in base64 at any of the three alignments, nor any SASL response line that carries the secret or a proof derived from it (as recorded by the server); and the MAIL FROM line sent after authentication appears in the log (redaction window closed). " +
 		"Non-trivial: >= 2 client responses in the exchange or an abnormal end. Distinct by (mechanism, TLS, wrong password, script, logger, transaction, password)."
 	rec.Assumptions = []string{"passwords are alphanumeric so that JSON escaping cannot hide them", "the user name and the mechanism name are not secrets"}
